@@ -1462,7 +1462,7 @@ func gen(seed uint64, tier string, o *hx.Out) {
 	steps := []struct {
 		name string
 		f    func()
-	}{{"item1", g.item1}, {"item2", g.item2}, {"item2b", g.item2b}, {"item3", g.item3}, {"item4", g.item4}, {"item5", g.item5}, {"item6", g.item6},
+	}{{"item1", g.item1}, {"item2", g.item2}, {"item2b", g.item2b}, {"item3", g.item3}, {"item4", g.item4}, {"item5", g.item5}, {"item6", g.item6}, {"item7", g.item7}, {"R", g.rCases},
 		{"H", g.hCases}, {"V", g.vCases}, {"P", g.pCases}}
 	for _, s := range steps {
 		t0, n0 := time.Now(), g.id
